@@ -52,6 +52,7 @@ func fileSets() map[string][]fileSpec {
 		"header-only":     {{"main.go", "// " + strings.ReplaceAll(strings.TrimRight(apacheHdr, "\n"), "\n", "\n// ") + "\npackage main\n"}},
 		"copyright-only":  {{"NOTICE", "Copyright 2020 Somebody\n"}},
 		"two-in-one":      {{"LICENSES", mit + "\n\n----\n\n" + bsd}},
+		"identical-twins": {{"COPYING", "preamble\n" + read("License/WTFPL/license.txt")}},
 		"many":            {{"1/LICENSE", mit}, {"2/LICENSE", bsd}, {"3/LICENSE", mit}, {"4/README", "nothing\n"}, {"5/LICENSE", bsd}},
 	}
 }
@@ -110,7 +111,7 @@ func c19CLI(c *vrep.Ctx) {
 	}
 	sort.Strings(names)
 	if !c.Thorough() {
-		names = []string{"licensed", "unlicensed", "nested", "crlf", "long-line-first", "header-only", "copyright-only", "no-trailing-nl"}
+		names = []string{"licensed", "unlicensed", "nested", "crlf", "long-line-first", "header-only", "copyright-only", "no-trailing-nl", "identical-twins"}
 	}
 	taskMenu := []string{"1", "2", "16"}
 	c.R.Rule = fmt.Sprintf("the real identify_license binary built from the current tree, over %d file sets (licensed, unlicensed, nested directories, no trailing newline, CRLF, a 70 000-character line, empty file, header-only, copyright-only, two licenses in one file, many files) x {-headers} x {plain, -json -include_text} x -tasks %v: stdout lines (as a multiset), JSON Text (= lines StartLine..EndLine of the file) and exit status compared with in-process DefaultClassifier().Match on the file bytes; quick tier samples the flag combinations round-robin, thorough runs all; non-trivial = runs that reported at least one line", len(names), taskMenu)
